@@ -467,6 +467,23 @@ impl Task for ExternalEquivalenceTask {
             .filter(|p| !public_predicates.contains(p))
             .collect();
 
+        let occurring_predicates: IndexSet<_> = match self.specification {
+            Either::Left(ref program) => program
+                .predicates()
+                .into_iter()
+                .map(fol::Predicate::from)
+                .collect(),
+            Either::Right(ref specification) => specification.predicates(),
+        }
+        .into_iter()
+        .chain(
+            self.program
+                .predicates()
+                .into_iter()
+                .map(fol::Predicate::from),
+        )
+        .collect();
+
         let mut warnings = Vec::new();
 
         self.ensure_input_and_output_predicates_are_disjoint()?;
@@ -534,11 +551,12 @@ impl Task for ExternalEquivalenceTask {
 
             // An output predicate that does not occur in the program is empty in every stable model:
             // it receives the empty completed definition (the one completion produces for
-            // predicates that occur in rule bodies only)
+            // predicates that occur in rule bodies only); one that occurs on neither side needs none
             for predicate in self
                 .user_guide
                 .output_predicates()
                 .difference(&theory.predicates())
+                .filter(|p| occurring_predicates.contains(*p))
             {
                 let head = atomic_formula_from(predicate);
                 let variables = head.variables().into_iter().collect();
